@@ -335,7 +335,7 @@ package gogen
 
 //@ func (*Package).Zero
 //@ prop C14
-//@ requires typ != nil && GlobalsWf() && StdType(typ) && !typeis(typ, *types.TypeParam) && imp(typeis(typ, *types.Alias), StdType(types.Unalias(typ)) && !typeis(types.Unalias(typ), *types.TypeParam))
+//@ requires PkgWf(p) && typ != nil && GlobalsWf() && StdType(typ) && !typeis(typ, *types.TypeParam) && imp(typeis(typ, *types.Alias), StdType(types.Unalias(typ)) && !typeis(types.Unalias(typ), *types.TypeParam))
 //@ requires BKind(Resolve(typ)) != 0 && BKind(Resolve(typ)) != 19 && BKind(Resolve(typ)) != 24 && BKind(Resolve(typ)) != 25
 //@ loop 0 invariant typ != nil && Resolve(typ) == Resolve(entry(typ)) && StdType(typ) && !typeis(typ, *types.TypeParam) && imp(typeis(typ, *types.Alias), StdType(types.Unalias(typ)) && !typeis(types.Unalias(typ), *types.TypeParam))
 //@ ensures fresh(result) && result.Type == typ
@@ -423,7 +423,7 @@ package gogen
 
 //@ func (*Func).End
 //@ prop C10 C16
-//@ requires cb != nil && cb.pkg != nil && p.Func != nil && StkWf(cb) && mforall(k, cb.current.labels, cb.current.labels[k] != nil)
+//@ requires cb != nil && PkgWf(cb.pkg) && p.Func != nil && StkWf(cb) && mforall(k, cb.current.labels, cb.current.labels[k] != nil)
 //@ requires imp(p.arity1 == 0, typeis(p.Type(), *types.Signature) && cb.current.label == nil)
 //@ assumecall isTerminating: WfStmt(arg_s)
 //@ ghostset handleCodeError[msg == "missing return"] missingReturn
@@ -664,6 +664,7 @@ package gogen
 //@ func interfaceIsImplicit
 //@ prop C13
 //@ pure
+//@ requires t != nil
 
 //@ func toInterface
 //@ prop C13
